@@ -100,11 +100,18 @@ def run(ctx):
                     _accepted_packages.discard(p)
             for i in range(n_other):
                 dds.accept_module("zz_other_%d.sub" % i)
+            # the accepted prefix is registered after (or before) one of its own sub-modules: the order of registration and
+            # redundant entries must not matter
+            sub_first = (depth + n_other + k) % 2 == 0
+            if sub_first:
+                dds.accept_module(".".join(pk[:k]) + ".zsub")
             dds.accept_module(".".join(pk[:k]))
+            if not sub_first:
+                dds.accept_module(".".join(pk[:k]) + ".zsub")
             w.write_module(helpmod, helper_src(1), accept=False)
             mod = w.write_module(modname, main_src(1), accept=False)
             case = {"package_depth": depth, "accepted_prefix": ".".join(pk[:k]).replace(root, "ROOT"), "n_accepted": len(_accepted_packages),
-                    "import_form": form}
+                    "import_form": form, "sub_module_registered": "before" if sub_first else "after"}
             res.evaluations += 1
             res.nontrivial(case)
 
